@@ -57,6 +57,8 @@ FUNCTIONS = [
     ("printbuf.c", "printbuf_new"),
     ("arraylist.c", "array_list_new2"),
     ("json_object.c", "_json_object_set_string_len"),
+    ("json_object.c", "json_object_get"),
+    ("json_object.c", "json_object_put"),
 ]
 
 
@@ -260,6 +262,10 @@ class Fn:
             return self.ex(n["inner"][0], env, k)
         if kind == "IntegerLiteral":
             return k(lit(int(n["value"])), env)
+        if kind == "StmtExpr":
+            # GNU statement expression ( glibc's assert: __extension__ ({ if (e) ; else __assert_fail(..); }) ): its statements,
+            # then the continuation (the value of the forms met here is void)
+            return self.stmts([n["inner"][0]], env, lambda e: k("0", e), None)
         if kind == "StringLiteral":
             # the address of a string literal: some fixed non-null address (only its identity matters)
             return k("(CSem.addrOf %s)" % json.dumps(re.sub(r"[^ -~]", "?", n.get("value", "\"\"").strip('"'))[:40]), env)
@@ -461,7 +467,7 @@ class Fn:
                     return "CSem.ckS %d (-%s) %s >>= fun %s =>\n%s" % (ty[1], self.atom(t), self.site_name("negation"), v, k(v, e))
                 return k(self.wrap("-" + self.atom(t), ty), e)
             return self.ex(sub, env, neg)
-        if op == "+":
+        if op in ("+", "__extension__"):
             return self.ex(sub, env, k)
         if op == "~":
             return self.ex(sub, env, lambda t, e: k(self.wrap(lit(-lit_val(t) - 1) if is_lit(t) else "(-%s - 1)" % self.atom(t), ty), e))
